@@ -277,6 +277,17 @@ var projFixed = []string{
 	"select (upper('2') + value) as f1, !(f1 < 'a'), substr(f1, 1, 2) where is_int(f1)",
 	"select key as f1, f1 as f2 where f2 != 'k2'",
 	"select key as f1, f1 as f2, f2 where f2 != 'k2' & f1 != 'a'",
+	// a name carried by two fields means the FIRST one, also for later fields and also after the second was computed
+	"select key as a, value as a, a as b, upper(a) as c where value != 'zz' & key != 'zz'",
+	"select key as a, value as a, a, a + 'x' as d where a != 'zz'",
+	"select upper(key) as a, lower(value) as a, a + 'x' as b where b != 'zz'",
+	"select int(value) as n, strlen(key) as n, n + 1 as m where is_int(value)",
+	// (name, first key of the chunk) must identify a cached column whatever bytes sit in names and keys
+	"select key as a, value as `a\x00b` where `a\x00b` != 'zz' & a != 'b'",
+	"select key as a, value as `a\x00b` where a != 'zz' & `a\x00b` != 'zz'",
+	"select key as a, value as `a:b` where `a:b` != 'zz' & a != 'b'",
+	"select key as a, value as `a:b` where a != 'zz' & `a:b` != 'zz'",
+	"select key as `a:`, value as `a` where `a:` != 'b' & `a` != 'zz'",
 	// list-typed select fields (C03: whatever batch iteration returns, row iteration returns too)
 	"select key, split(value, ',') as l where true",
 	"select key, split(value, ',') where key != 'zz'",
@@ -287,7 +298,7 @@ var projFixed = []string{
 	"select float_list(2.5, float(value)) as fl where 2.5 in fl & len(fl) > 1",
 }
 
-var projPool = []KV{{"a", "1"}, {"a1", "x"}, {"ab", "2"}, {"abc", "10"}, {"b", ""}, {"b-k1", "7"}, {"b1", "7"}, {"ba", "abc"}, {"k1", "3"}, {"k2", "v"}, {"k3", "-4"}, {"l", "2.5"}, {"m", "0"}, {"n", "a,b"}, {"o", "1,2,3"}, {"p", "+5"}, {"zz", "b-k1"}}
+var projPool = []KV{{"a", "1"}, {"a1", "x"}, {"ab", "2"}, {"abc", "10"}, {"b", ""}, {"b-k1", "7"}, {"b\x00k1", "8"}, {"b:k1", "9"}, {":k1", "6"}, {"b1", "7"}, {"ba", "abc"}, {"k1", "3"}, {"k2", "v"}, {"k3", "-4"}, {"l", "2.5"}, {"m", "0"}, {"n", "a,b"}, {"o", "1,2,3"}, {"p", "+5"}, {"zz", "b-k1"}}
 
 func projStore(r *Rand) []KV {
 	n := r.Intn(len(projPool) + 1)
